@@ -27,10 +27,24 @@ CHECKS = {
     'C07': ('proof', 'Verus: the index rebuild loop of TryFrom<OrderBookState> re-establishes the full invariant from the order list alone and copies every field, so the loaded book is the unique '
             'well-formed book with that view (lemma: wf determines the index). serde and file I/O are trusted / out of reach (stated in evidence).',
             'Verus loop invariant on the snapshot rebuild; serde trusted', BOOK_NOTE + ' serde round trip assumed field-wise; save_json/load_json (file I/O, truncation) are NOT covered by this check.'),
+    'C08': ('proof', 'Verus: Env::step and MarketEnv::step carry a loop invariant over an arbitrary permutation q of the queue (all that is assumed of shuffle): after i iterations the book view equals '
+            'run(reset(view0), q[..i], start) where run replays the instructions on the abstract book at times start+i using the reference event function; postcondition: queue empty, clock == start+step, '
+            'exists q permutation with view == run(...) at start+step, step volume == book counter. Unbounded in batch length, assets, levels.',
+            'Verus loop invariant over an assumed-permutation shuffle; fold of the reference event function', BOOK_NOTE + ' Additionally assumed: core::mem::take returns the old value and leaves an empty Vec; SliceRandom::shuffle yields SOME permutation of the slice (multiset equality) and nothing else; the generator is opaque; rewrite rule R6 (enumerate / iter_mut / take loops written as the counter or index walk they abbreviate). Batch validity (every instruction valid for the book it meets, batch no longer than the step size, no clock overflow) is the precondition, as in the property statement.'),
+    'C10': ('proof', 'Verus: the three submit functions of Env and MarketEnv ensure that only the queue grows and (for placements) one New order is appended - trades, clock, flags, index, cached snapshot and all '
+            'recorded series are unchanged (frame postconditions); create_order proves that every level-2 record valid for the old book is valid for the new one; the environment invariant '
+            'cached == level-2 data of the live book is established by new, re-established by step and preserved by submissions and toggles.',
+            'Verus frame postconditions + environment invariant', BOOK_NOTE + ' Additionally assumed: core::mem::take returns the old value and leaves an empty Vec; SliceRandom::shuffle yields SOME permutation of the slice (multiset equality) and nothing else; the generator is opaque; rewrite rule R6 (enumerate / iter_mut / take loops written as the counter or index walk they abbreviate). Batch validity (every instruction valid for the book it meets, batch no longer than the step size, no clock overflow) is the precondition, as in the property statement.'),
+    'C11': ('proof', 'Verus: append_record ensures each of the 4+4N series == old series + the matching field of the record (bid from bid, ask from ask, level i from index i; generic N); step appends the '
+            'level-2 data of the final book and the step counter, which equals the sum of the trades logged in the step, all stamped in [start, start+|batch|); invariant: all series have the length of the '
+            'step-volume series.', 'Verus postconditions on the recording functions + loop invariants', BOOK_NOTE + ' Additionally assumed: core::mem::take returns the old value and leaves an empty Vec; SliceRandom::shuffle yields SOME permutation of the slice (multiset equality) and nothing else; the generator is opaque; rewrite rule R6 (enumerate / iter_mut / take loops written as the counter or index walk they abbreviate). Batch validity (every instruction valid for the book it meets, batch no longer than the step size, no clock overflow) is the precondition, as in the property statement.'),
     'C12': ('proof', 'Verus: create_order returns Ok iff the price is market or on the grid, Err leaves every observable unchanged; the grid predicate over all orders is preserved by every operation '
             'that does not take a new price from the caller.', 'Verus iff-postcondition + grid invariant', BOOK_NOTE),
     'C13': ('proof', 'Verus: with the trading flag off every operation leaves trades and trade_vol unchanged, limit placements/replacements rest at their price, market orders become Rejected with both '
             'sides untouched; the toggles change only the flag.', 'Verus postconditions conditional on the trading flag', BOOK_NOTE),
+    'C14': ('proof', 'Verus: every Market operation on asset a ensures the book contract for books[a] and forall j != a: books[j] unchanged (frame); fan-out operations give every book the single-book effect; '
+            'all-asset getters return element i == asset i\'s own value; MarketEnv::step: the market view after a shuffled batch equals the fold of per-asset reference events, and a proved projection lemma '
+            'shows asset a\'s view equals a stand-alone book fed a\'s own instructions at the same global times.', 'Verus frame conditions over the book array + projection lemma', BOOK_NOTE + ' Additionally assumed: core::mem::take returns the old value and leaves an empty Vec; SliceRandom::shuffle yields SOME permutation of the slice (multiset equality) and nothing else; the generator is opaque; rewrite rule R6 (enumerate / iter_mut / take loops written as the counter or index walk they abbreviate). Batch validity (every instruction valid for the book it meets, batch no longer than the step size, no clock overflow) is the precondition, as in the property statement.'),
 }
 NA = {
     'C09': 'Determinism across runs/processes is a 2-safety property of the whole program including rand, rand_distr, kdam and libm; function contracts can only restate `result == f(inputs)`, and both verifiers already assume executable Rust has no hidden inputs, so a contract proof would be vacuous about exactly the nondeterminism sources the property is about (DESIGN.md 5, C09).',
